@@ -683,13 +683,18 @@ func stripOAIGenForRef(opts *FlattenOpts, k string, r *newRef) (bool, error) {
 
 	// rewrite any $ref pointing inside the removed definition: its target has moved to the first parent
 	for kk, v := range New(opts.Swagger()).references.allRefs {
-		if !strings.HasPrefix(v.String(), r.path+"/") {
+		below, inside := pointsInside(v, r.path)
+		if !inside {
 			continue
 		}
 
 		debugLog("found a $ref inside a removed definition: %s points to %s", kk, v.String())
-		if err := replace.UpdateRef(opts.Swagger(), kk,
-			spec.MustCreateRef(pr[0]+strings.TrimPrefix(v.String(), r.path))); err != nil {
+		moved, err := spec.NewRef(pr[0] + below)
+		if err != nil {
+			return false, ErrAtKey(kk, err)
+		}
+
+		if err := replace.UpdateRef(opts.Swagger(), kk, moved); err != nil {
 			return false, err
 		}
 	}
